@@ -243,6 +243,7 @@ bool corpus_init(std::string *why) {
         g_safe.push_back(idx);
     }
   }
+  lib_geometry();  // observed once, before any run
   if (g_instr.size() < 40 || g_ret < 0) {
     if (why) *why = "corpus collapsed: only " + std::to_string(g_instr.size()) + " instruction lines are accepted by this tree";
     g_collapsed = true;
